@@ -1177,12 +1177,16 @@ fn light_digest(s: &Sentence, cands: bool) -> u64 {
     h.finish()
 }
 
-fn client_trace(ops: &[Op], plan: &HistPlan, preds: &[Predictor]) -> Vec<u64> {
+fn client_trace(ops: &[Op], plan: &HistPlan, preds: &[Predictor], barrier: Option<&std::sync::Barrier>) -> Vec<u64> {
     let mut out = vec![];
     let mut s = Sentence::default();
     let mut linked: Option<usize> = None;
     let mut cands_ok = false;
     for op in ops {
+        if let Some(b) = barrier {
+            // all clients start their k-th operation together
+            b.wait();
+        }
         if op.is_update_or_ctor() {
             match op {
                 Op::UpdateRaw { s: t, owned } => {
@@ -1218,7 +1222,14 @@ fn client_trace(ops: &[Op], plan: &HistPlan, preds: &[Predictor]) -> Vec<u64> {
             if let (Op::FillTags, Some(p)) = (op, linked) {
                 do_fill = plan.preds[p].predict_tags;
             }
-            apply_plain(&mut s, op, preds, do_fill);
+            // a panic inside the library must not leave the other clients waiting at the barrier
+            if guarded(|| apply_plain(&mut s, op, preds, do_fill)).is_none() {
+                out.push(0xdead_0000_0000_0000 | out.len() as u64);
+                s = Sentence::default();
+                linked = None;
+                cands_ok = false;
+                continue;
+            }
             match op {
                 Op::Predict(p) => linked = Some(*p % preds.len()),
                 Op::FillTags if do_fill => {
@@ -1230,14 +1241,22 @@ fn client_trace(ops: &[Op], plan: &HistPlan, preds: &[Predictor]) -> Vec<u64> {
                 _ => {}
             }
         }
-        out.push(light_digest(&s, cands_ok));
+        match guarded(|| light_digest(&s, cands_ok)) {
+            Some(d) => out.push(d),
+            None => {
+                out.push(0xdead_0000_0000_0000 | out.len() as u64);
+                s = Sentence::default();
+                linked = None;
+                cands_ok = false;
+            }
+        }
     }
     out
 }
 
 /// The serial reference: every client's trace, one after the other.
 pub fn serial_traces(plan: &HistPlan, preds: &[Predictor]) -> Vec<Vec<u64>> {
-    plan.clients.iter().map(|ops| client_trace(ops, plan, preds)).collect()
+    plan.clients.iter().map(|ops| client_trace(ops, plan, preds, None)).collect()
 }
 
 /// `reps` times all clients concurrently (one real thread each, sharing the predictors); every
@@ -1247,9 +1266,15 @@ pub fn serial_traces(plan: &HistPlan, preds: &[Predictor]) -> Vec<Vec<u64>> {
 /// Miri process every repetition sees a different interleaving because the scheduler's PRNG
 /// advances.
 pub fn execute_threaded(plan: &HistPlan, preds: &[Predictor], serial: &[Vec<u64>], reps: usize) -> Option<Violation> {
+    // when every client has the same number of operations (same-shape plans), odd repetitions
+    // align the clients at every operation with a barrier of the harness's own: the k-th
+    // operations then overlap for certain instead of by luck
+    let same_len = plan.clients.iter().all(|c| c.len() == plan.clients[0].len());
     for rep in 0..reps {
+        let barrier = (same_len && rep % 2 == 0).then(|| std::sync::Barrier::new(plan.clients.len()));
+        let barrier = barrier.as_ref();
         let conc: Vec<Option<Vec<u64>>> = std::thread::scope(|sc| {
-            let hs: Vec<_> = plan.clients.iter().map(|ops| sc.spawn(move || client_trace(ops, plan, preds))).collect();
+            let hs: Vec<_> = plan.clients.iter().map(|ops| sc.spawn(move || client_trace(ops, plan, preds, barrier))).collect();
             hs.into_iter().map(|h| h.join().ok()).collect()
         });
         for (ci, (a, b)) in serial.iter().zip(&conc).enumerate() {
